@@ -12,7 +12,8 @@ META = {
     "level_text": "props/C19.v: the tables regenerated from brine.py/channel.py/consts.py/protocol.py equal the hand-written published tables (tags, immediates, "
                   "ladders, struct formats, frame parameters and comparison, message/label/handler numbers, handler table, message tuple layout); for every value the "
                   "encoder emits exactly the published encoding written out directly from the format description (c19_emits_the_published_encoding: model/PubCodec.v "
-                  "shares no table with the encoder); each ladder provably "
+                  "shares no table with the encoder; with the strict UTF-8 text codec for every value without lone surrogates: c19_emits_the_strict_published_encoding, "
+                  "and c19_surrogate_extension_refuted for the one deviation, known F67); the frame Channel.send emits is the published frame (c19_frame_is_published); each ladder provably "
                   "picks a shortest admissible header and immediates are used whenever available; every admissible alternative form (one-byte or four-byte counts) "
                   "is accepted by the decoder with the same meaning; any stream of conforming frames (any flag byte, compressed at any size) read through any benign "
                   "fragmentation is delivered payload by payload (c19_accepts_any_conforming_frames); values cross the whole stack encode-frame-fragment-unframe-decode "
@@ -32,14 +33,14 @@ META = {
                "netref.class_factory", "handlers.lib.get_id_pack", "calls.*"],
     "models": ["brine"],
     "model_files": ["Brine"],
-    "assumptions": ["harness/refcodec.py and coq/model/Published.v are the reading of 'the published 5.x format'"],
+    "assumptions": ["the interpreter's limit on int <-> text conversion (sys.get_int_max_str_digits) is not part of the format: integers beyond it are known finding F66", "harness/refcodec.py and coq/model/Published.v are the reading of 'the published 5.x format'"],
 }
 
 from rpyc.core import brine
 from rpyc.core.channel import Channel
 from rpyc.core.protocol import Connection
 import rpyc
-from harness.C04 import gen_value, canon, short, to_sx, has_surrogate, too_big_int
+from harness.C04 import gen_value, canon, short, to_sx, has_surrogate, too_big_int, MAXD
 from harness.C05 import FakeSock, SIZES, payload
 from rpyc.core.stream import SocketStream
 
@@ -67,6 +68,9 @@ def values_phase(ctx, n):
             continue
         if ext:
             ctx.count("value-outside-published-domain:lone-surrogate-text")
+            ctx.violation("text-outside-published-encoding:lone-surrogate", {"value_sx": C.sx_dumps(to_sx(v)), "repr": short(v, 120)}, observed=real[:40].hex(),
+                          expected="UTF-8 (which cannot express a lone surrogate): refuse, or pass by reference",
+                          what="text containing a lone surrogate is transmitted with surrogatepass bytes that a published 5.x decoder rejects (extension introduced by the F1 repair)")
         try:
             ref = R.enc(v, ext_surrogates=ext)
         except Exception as e:
@@ -285,8 +289,40 @@ def numbers_phase(ctx):
                           what="published handler number is not routed to its handler")
 
 
+def overlimit_int_phase(ctx):
+    """a conforming peer whose interpreter has no limit on int <-> text conversion (Python <= 3.10, or the limit switched off) sends
+    an integer with more decimal digits than THIS interpreter converts. The format has no such limit: the value should be accepted."""
+    import sys as _sys
+    p = RefPeer("short", False)
+    big = 10 ** (MAXD + 700)
+    _sys.set_int_max_str_digits(0)
+    try:
+        data = R.msg(R.MSG_REQUEST, 501, (R.H["PING"], (R.LABEL_TUPLE, (V(big),))))
+    finally:
+        _sys.set_int_max_str_digits(MAXD)
+    p.mine.write(R.frame(data, False))
+    outcome = "answered"
+    try:
+        p.pump()
+    except BaseException as e:
+        outcome = "serve-raised:" + type(e).__name__
+    replies = []
+    try:
+        replies = p.recv_all()
+    except Exception:
+        pass
+    ok = outcome == "answered" and len(replies) == 1 and replies[0][0][0] == R.MSG_REPLY and replies[0][0][1] == 501
+    case = {"overlimit_int_digits": MAXD + 701}
+    ctx.case(("overlimit-int",), nontrivial=True, sample={"case": case, "outcome": outcome, "replies": len(replies)})
+    ctx.count("conforming-int-beyond-this-interpreters-digit-limit")
+    if not ok:
+        ctx.violation("conforming-integer-beyond-digit-limit-rejected", case, observed={"outcome": outcome, "replies": [r_[0][:2] for r_ in replies]}, expected="accepted and echoed",
+                      what="an integer a conforming peer may send (the format has no digit limit) is rejected by this interpreter's int<->text limit: ValueError escapes serve(), no reply")
+
+
 def run(ctx):
     numbers_phase(ctx)
+    overlimit_int_phase(ctx)
     ctx.coverage_extra["rule"] = ("values from C04's generator (serializable only) compared with the reference encoder byte-for-byte and re-encoded in l1/l4 forms; "
                                   "frames for payload sizes around threshold/chunk with both compression settings on both sides; scripted request/response conversations "
                                   "between the reference peer (each of 3 forms x 2 compression choices) and a real Connection, both directions")
